@@ -24,12 +24,16 @@ def stage_kind(name, t0, T=None):
         d = P.case(method="MS", N=2, M=1, rhs="nl", cons=[P.con("t_eq", include_first=False, include_last=False)], obj=["integral_t"], T0=t0, TT=T or 1.2)
     elif name == "G":  # global parameter in the rhs (clones get their own value after cloning)
         d = P.case(method="MS", N=2, M=1, rhs="nl", pg="scalar", cons=[P.con("pg_le")], obj=["integral", "pg"], T0=t0, TT=T or 1.0)
+    elif name == "H":  # DAE under DirectCollocation (algebraic equation, constraint and integrand with z)
+        d = P.case(method="DC", N=2, M=1, degree=2, rhs="nl", alg=True, cons=[P.con("z_le")], obj=["integral", "int_z"], T0=t0, TT=T or 1.15)
+    elif name == "I":  # horizon given by a parameter of the stage (every clone sets its own value)
+        d = P.case(method="MS", N=2, M=1, rhs="nl_t", horizon="Tparam", cons=[P.con("x_le")], obj=["integral_t", "mayer_tf"], T0=t0, TT=T or 1.25)
     else:
         raise KeyError(name)
     return d
 
 
-KINDS = ["A", "B", "C", "D", "E", "F", "G"]
+KINDS = ["A", "B", "C", "D", "E", "F", "G", "H", "I"]
 
 
 def build(names, coupling, via, start=0.3):
@@ -40,15 +44,18 @@ def build(names, coupling, via, start=0.3):
     der = "clone_der" in via
     for i, nm in enumerate(names):
         d = stage_kind(nm, round(t, 3))
-        t += d["TT"]
         sd = dict(d=d, via=via[i])
         if nm == "G":
             d["pvals"] = {"pg": [0.45, -0.8, 1.3][i % 3]}
+        if nm == "I":
+            d["TT"] = [1.25, 0.8, 1.6][i % 3]
+            d["pvals"] = {"TT": d["TT"]}
+        t += d["TT"]
         if via[i] != "direct":
             sd["tmpl"] = nm
             # the template is declared with its own (different) default horizon; clones override t0/T
             sd["tmpl_d"] = stage_kind(nm, 0.7, 1.0)
-            if sd["tmpl_d"]["horizon"] != "fixed":
+            if sd["tmpl_d"]["horizon"] not in ("fixed", "Tparam"):
                 sd["tmpl_d"] = dict(sd["tmpl_d"]); sd["tmpl_d"]["horizon"] = "fixed"
             if der:
                 # the template declares a derivative scale; one clone re-declares its dynamics with another one
